@@ -663,6 +663,7 @@ fn body(run: &Run, replay: Option<&Value>) {
     extra::spaces_explicit_empty(&ctx, &base);
     extra::spaces_f1_cmap12(&ctx, &base);
     extra::spaces_f1_width_boundary(&ctx, &base);
+    extra::spaces_pages(&ctx, &base);
     if run.tier == Tier::Thorough {
         spaces_f2_three_large(&ctx, &base);
     }
